@@ -2,6 +2,7 @@ import Driver.Proto
 import PtVerif.Model.Print
 import PtVerif.Model.GrammarTable
 import PtVerif.Model.GrammarSpec
+import PtVerif.Model.GrammarMix
 /-! Driver sub-command `grammar`: the formula grammar (C01) and the printer (C13).
 
 Texts cross the protocol as comma-separated code points (`-` = empty text).
@@ -9,6 +10,9 @@ Requests:
 * `tblgen` / `tblnew` / `ent c1,c2 z alias isos ions` – select the generated table, or define one
 * `tbldump` – the current table
 * `parse <text>` → `OK <items> <dens>` | `FAIL` | `ABORT`
+* `parsemix <text>` → `OK <mixture term>` | `FAIL` | `ABORT`: the whole top-level grammar (Model/GrammarMix.lean);
+  term := ( C items dens ) | ( G term dens ) | ( W (p num dec term)* term ) | ( V … ) |
+  ( L (q num dec unit term | r num dec term)* ) | ( M … )
 * `print <qitems>` / `str <name> <qitems>` / `repr <name> <qitems>` → `S <text>`
 * `fmtg n d` / `strcount n d` → `S <text>`;  `round6 n d` → `C num dec`
 * `deriv <derivation>` → `D <canon 0|1> <text> (OK <items> <dens> | NONE)`: the yield of a derivation of
@@ -74,6 +78,23 @@ where
         let (rest, r2) ← go r1
         some (.cons c (.group inner) rest, r2)
     | _ => none
+
+mutual
+partial def showMix : Mix → String
+  | .compound fs d => "( C " ++ showItemsC fs ++ " " ++ showDens d ++ " )"
+  | .grouped m d => "( G " ++ showMix m ++ " " ++ showDens d ++ " )"
+  | .byWeight ps b => "( W " ++ showPct ps ++ showMix b ++ " )"
+  | .byVolume ps b => "( V " ++ showPct ps ++ showMix b ++ " )"
+  | .byLayer ps => "( L " ++ showQty ps ++ ")"
+  | .byMass ps => "( M " ++ showQty ps ++ ")"
+partial def showPct : PctParts → String
+  | .nil => ""
+  | .cons c m r => s!"p {c.num} {c.dec} " ++ showMix m ++ " " ++ showPct r
+partial def showQty : QtyParts → String
+  | .nil => ""
+  | .qty c u m r => s!"q {c.num} {c.dec} {u} " ++ showMix m ++ " " ++ showQty r
+  | .rep i c r => s!"r {c.num} {c.dec} " ++ showMix i ++ " " ++ showQty r
+end
 
 def showParse : Except Err (Items Cnt × Option Dens) → String
   | .ok (fs, d) => "OK " ++ showItemsC fs ++ " " ++ showDens d
@@ -193,6 +214,15 @@ def handle (st : St) : Toks → IO St
   | ["parse", t] =>
     match decText t with
     | some cs => do reply (showParse (parse st.table cs)); pure st
+    | none => bad st
+  | ["parsemix", t] =>
+    match decText t with
+    | some cs => do
+      reply (match parseTop st.table cs with
+        | .ok m => "OK " ++ showMix m
+        | .error .fail => "FAIL"
+        | .error .abort => "ABORT")
+      pure st
     | none => bad st
   | "print" :: rest =>
     match readQItems rest with
